@@ -172,7 +172,8 @@ Definition alloc_buf (c : cfg) (o : op) : op :=
     let chunk_siz := if chunk_siz >? max_buf_siz then max_buf_siz else chunk_siz in
     let bs0 := wbuf_scan chunk_siz 0 (o_data o) in
     let bs := if bs0 >? max_buf_siz then max_buf_siz else bs0 in
-    set_buf o true bs (o_buf_len o) (firstn (Z.to_nat bs) (flat (o_data o))).
+    (* d = dispatch_data_create_subrange(op->data, 0, op->buf_siz); op->buf_data = dispatch_data_create_map(d, &op->buf) *)
+    set_buf o true bs (o_buf_len o) (flat (dsub (o_data o) 0 bs)).
 
 (* the `syscall:` loop: EINTR is retried; None = the outcomes given end inside the loop *)
 Fixpoint first_result (rs : list sysres) : option sysres :=
